@@ -20,6 +20,9 @@ TNext ==
        \/ e.a = "complete" /\ Take(e, CompleteFn(o, e.ok = 1))
        \/ e.a = "tick" /\ TimeoutEnabled(o) /\ e.t = o.t0 + TimeoutOf(o.kind) /\ Take(e, TimeoutFn(o))
        \/ e.a = "tick" /\ CmdTimeoutEnabled(o) /\ e.t = o.t0 + CmdTimeout /\ Take(e, CmdTimeoutFn(o))
+       \* a timer of the loop fired and nothing observable happened while the model has no timeout due: stuttering
+       \/ e.a = "tick" /\ e.out = <<>> /\ ~(TimeoutEnabled(o) /\ e.t >= o.t0 + TimeoutOf(o.kind))
+                        /\ ~(CmdTimeoutEnabled(o) /\ e.t >= o.t0 + CmdTimeout) /\ UNCHANGED o
        \/ e.a = "cancel" /\ Take(e, CancelFn(o))
        \/ e.a = "end" /\ o.ph \in {"idle", "done"} /\ e.pending = 0 /\ e.listeners = 0 /\ e.callbacks = 0 /\ UNCHANGED o
   /\ l' = l + 1 /\ UNCHANGED tid
